@@ -533,6 +533,7 @@ class Interp:
         self.path = Path()
         self.call_hooks = {}  # fullname -> fn(interp, func, args, kwargs) -> value | NotImplemented
         self.loop_hooks = {}  # (fullname, ordinal) -> fn(interp, node, env, frame)
+        self.loop_matchers = []  # (predicate(fullname, node), hook): loop contracts located by the shape of the loop, not its position
         self.await_hook = None  # fn(interp, awaitable) called for suspending library awaitables
         self.frames = []
         self.depth = 0
@@ -1232,9 +1233,17 @@ class Interp:
         ordn = self._loop_ord_cache[fid].get(id(node))
         return (fr.func.fullname, ordn)
 
+    def _matched_hook(self, key, node):
+        hook = self.loop_hooks.get(key)
+        if hook is None and key is not None:
+            for pred, hk in self.loop_matchers:
+                if pred(key[0], node):
+                    return hk
+        return hook
+
     def x_For(self, node, env):
         key = self._loop_key(node)
-        hook = self.loop_hooks.get(key)
+        hook = self._matched_hook(key, node)
         if hook is not None:
             r = hook(self, node, env)
             if r is not NotImplemented:
@@ -1268,7 +1277,7 @@ class Interp:
 
     def x_While(self, node, env):
         key = self._loop_key(node)
-        hook = self.loop_hooks.get(key)
+        hook = self._matched_hook(key, node)
         if hook is not None:
             r = hook(self, node, env)
             if r is not NotImplemented:
